@@ -6,6 +6,7 @@ import Tuc.Model.Chars
 import Tuc.Model.Args
 import Tuc.Model.Faults
 import Tuc.Model.Regex
+import Tuc.Model.Argv
 import Tuc.Spec.Record
 import Tuc.Spec.Lines
 import Tuc.Spec.Grammar
@@ -263,6 +264,59 @@ def ubFromKv (kv : Kv) : UserBounds :=
   { l := parseSideTok ((kv.get? "l").getD "_"), r := parseSideTok ((kv.get? "r").getD "_"),
     isLast := false, fallback := kv.optBytes "fb" }
 
+/-- regexes outside the modelled family that the real engine is known to accept (the generator of
+    `tool/argv_diff.py` draws from the same list) -/
+def knownValidRegexes : List String := ["\\b|\\B", "[0-9]", "a*", ".", "\\s+", "\\d", "x?", "[a-c]+", "a**"]
+
+/-- regexes the real engine is known to refuse (the generator draws from the same list) -/
+def knownInvalidRegexes : List String := ["(", "[a", ")", "*a", "a)", "(a", "[", "\\", "a{2,1}", "+", "a\\"]
+
+/-- `regexOk` of `parseArgv`: the text is in the modelled family (every member is a valid regex)
+    or in the known-valid list.  A text that is in neither list and outside the family is
+    `unknown`: `unknownOk` says how to count it. -/
+def driverRegexOk (unknownOk : Bool) (t : List Char) : Bool :=
+  -- (`Re.parse` takes a lone trailing backslash for a literal; the real engine refuses it)
+  if knownInvalidRegexes.contains (String.ofList t) then false
+  else if ((Re.parse t).isSome && (t.reverse.takeWhile (· = '\\')).length % 2 = 0)
+    || knownValidRegexes.contains (String.ofList t) then true
+  else unknownOk
+
+def runArgvWith (unknownOk : Bool) (argv : List (List Char)) (input : Bytes) : String :=
+  match parseArgv (driverRegexOk unknownOk) argv with
+  | .help => "help"
+  | .version => "version"
+  | .reject => "reject"
+  | .panic => "panic"
+  | .run opt fm reText =>
+    let bag : Except String (Option RegexBag) :=
+      if opt.boundsType = .characters then .ok (some charsBag)
+      else match reText with
+        | none => .ok none
+        | some t =>
+          match Re.parse t with
+          | some r => if (Re.run 1 r [] some).isSome then .error "unmodelled" else .ok (some r.bag)
+          | none => .error "unmodelled"
+    match bag with
+    | .error e => e
+    | .ok bag =>
+      let opt := { opt with regexBag := bag }
+      if opt.boundsType = .characters && !validUtf8 input then "unmodelled"
+      else
+        match dispatch opt fm (splitSegs input [65536]) with
+        | some r => renderRun r
+        | none => "reject"
+
+/-- `argv a=<hex>,<hex>,… in=<hex>`: `parseArgv`, then `main`'s dispatch with one 64 KiB segment.
+    When the outcome depends on the validity of a regex text the driver knows nothing about, the
+    case is `unmodelled`. -/
+def runArgv (kv : Kv) : String :=
+  let a := (kv.get? "a").getD ""
+  let argv : List (List Char) := if a.isEmpty then [] else (a.splitOn ",").map fun h => bytesToChars (unhex h)
+  let input := (kv.optBytes "in").getD []
+  let r1 := runArgvWith true argv input
+  let r2 := runArgvWith false argv input
+  if r1 == r2 then r1 else "unmodelled"
+
 def runCase (line : String) : String :=
   match (line.trimAscii.toString.splitOn " ").filter (· ≠ "") with
   | [] => "badcase"
@@ -299,6 +353,7 @@ def runCase (line : String) : String :=
         | .fail => "fail"
         | .panic => "panic"
     | "cut" => runCut kv
+    | "argv" => runArgv kv
     | "decide" => renderDecision (decision (flagsOfKv kv))
     | "rematch" =>
       match Re.parse (bytesToChars (unhex ((kv.get? "re").getD ""))) with
